@@ -279,6 +279,29 @@ fixed_degree_isogeny(theta_chain_t *isog,
     return 1;
 }
 
+#ifdef SQISIGN_SQISIGN2D_WEST_AC24_VERIF
+/* verification hook: which basis re-ordering branch find_uv takes for this ideal (same comparisons as below):
+   1: q(b0) = q(b2), 2: q(b0) = q(b3), 3: q(b1) = q(b3), 0: none */
+int
+verif_find_uv_branch(const quat_left_ideal_t *lideal)
+{
+    ibz_mat_4x4_t gram, reduced;
+    int r = 0;
+    ibz_mat_4x4_init(&gram);
+    ibz_mat_4x4_init(&reduced);
+    quat_lideal_reduce_basis(&reduced, &gram, lideal, &QUATALG_PINFTY);
+    if (ibz_cmp(&gram[0][0], &gram[2][2]) == 0)
+        r = 1;
+    else if (ibz_cmp(&gram[0][0], &gram[3][3]) == 0)
+        r = 2;
+    else if (ibz_cmp(&gram[1][1], &gram[3][3]) == 0)
+        r = 3;
+    ibz_mat_4x4_finalize(&gram);
+    ibz_mat_4x4_finalize(&reduced);
+    return r;
+}
+#endif
+
 /**
  * @brief Find good equivalent ideals
  *
